@@ -217,6 +217,8 @@ def parse_const(s):
         return ('bool', False)
     if s == '()':
         return ('unit',)
+    if s == '[]':
+        return ('emptyarr',)
     m = re.fullmatch(r'(-?\d+)_(\w+)', s)
     if m and m.group(2) in _INT_TYS:
         return ('int', int(m.group(1)), m.group(2))
